@@ -602,9 +602,9 @@ func (r *reporter) c06DMat(c *DMatCase) {
 				}
 			}
 		}
-		// ---- back substitution on triangular members: variables in the upper triangle
+		// ---- back substitution on triangular members: the entries of the upper triangle
+		// AND of the right-hand side are variables (order 1 and 2)
 		if c.Tri {
-			a := mkMatrix(t, c.A)
 			vars := [][]int{}
 			idx := []int{}
 			for v, p := range c.Vars {
@@ -613,37 +613,91 @@ func (r *reporter) c06DMat(c *DMatCase) {
 					idx = append(idx, v)
 				}
 			}
-			activate(1, []Matrix{a}, vars, nil)
-			b := mkVector(t, ramp)
-			var res Vector
-			o := call(func() error {
-				var err error
-				res, err = backSubstitution.Run(a, b)
-				return err
-			})
-			if got := r.judgeV("backSubstitution", ti.name, "order1", vh.M{"with": "variables"}, o, res, ratV(c.Sol), kappa, "none", ti.tol); got != nil {
-				dsa := make([][]float64, len(idx))
-				for q, v := range idx {
-					dsa[q] = ratV(c.Dsola[v])
+			nA := len(vars)
+			for order := 1; order <= 2; order++ {
+				opts := "order1"
+				if order == 2 {
+					opts = "order2"
 				}
-				dcheck{r, "backSubstitution", ti.name, "order1", ti.tol}.gradV(res, 0, dsa, k2)
+				a := mkMatrix(t, c.A)
+				b := mkVector(t, ramp)
+				bvars := []MagicScalar{}
+				for i := 0; i < n; i++ {
+					bvars = append(bvars, b.(MagicVector).MagicAt(i))
+				}
+				activate(order, []Matrix{a}, vars, bvars)
+				var res Vector
+				o := call(func() error {
+					var err error
+					res, err = backSubstitution.Run(a, b)
+					return err
+				})
+				if got := r.judgeV("backSubstitution", ti.name, opts, vh.M{"with": "variables"}, o, res, ratV(c.Sol), kappa, "none", ti.tol); got != nil {
+					dsa := make([][]float64, len(idx))
+					for q, v := range idx {
+						dsa[q] = ratV(c.Dsola[v])
+					}
+					d := dcheck{r, "backSubstitution", ti.name, opts, ti.tol}
+					d.gradV(res, 0, dsa, k2)
+					// d x_k / d b_i = Inv[k][i]
+					dsb := make([][]float64, n)
+					for i := 0; i < n; i++ {
+						dsb[i] = column(inv, i)
+					}
+					d.opts = opts + "/wrt_b"
+					d.gradV(res, nA, dsb, k2)
+					if order == 2 {
+						// d2 x_k / dA_v db_i = d Inv[k][i] / dA_v ; d2 / db db = 0 ; (A, A) block only in the tables for n <= 2
+						r.nchecks++
+						for k := 0; k < n; k++ {
+							s := res.ConstAt(k)
+							ok := true
+							for q := 0; q < nA && ok; q++ {
+								for i := 0; i < n && ok; i++ {
+									want := dinv[idx[q]][k][i]
+									for _, got := range []float64{hessOf(s, q, nA+i), hessOf(s, nA+i, q)} {
+										if !(math.Abs(got-want) <= ti.tol*(1+math.Abs(want))*k2*kappa) {
+											r.mismatch("backSubstitution", ti.name, opts+"/wrt_b", "deriv", vh.M{"order": 2, "diff": "value"},
+												vh.M{"at": k, "vars": []int{q, nA + i}, "expected": want, "observed": jsonNum(got)})
+											ok = false
+											break
+										}
+									}
+								}
+							}
+							for i := 0; i < n && ok; i++ {
+								for j := 0; j < n && ok; j++ {
+									if got := hessOf(s, nA+i, nA+j); !(math.Abs(got) <= ti.tol*k2*kappa) {
+										r.mismatch("backSubstitution", ti.name, opts+"/wrt_b", "deriv", vh.M{"order": 2, "diff": "value"},
+											vh.M{"at": k, "vars": []int{nA + i, nA + j}, "expected": 0, "observed": jsonNum(got)})
+										ok = false
+									}
+								}
+							}
+							if !ok {
+								break
+							}
+						}
+					}
+				}
 			}
 		}
-		// ---- matrix product, order 2: entries of both factors are variables
-		{
+		// ---- matrix product, order 2: entries of both factors are variables; the generic
+		// MdotM and the type-specialised MDOTM; the FULL Hessian (both triangles) is compared
+		prodScale := 1.0
+		for i := 0; i < n; i++ {
+			for j := 0; j < n; j++ {
+				prodScale = math.Max(prodScale, math.Abs(float64(c.C[i][j])))
+			}
+		}
+		for _, path := range []string{"MdotM", "MDOTM"} {
 			a := mkMatrix(t, c.A)
 			bm := mkMatrix(t, c.B)
 			activate(2, []Matrix{a, bm}, c.Vars, nil)
 			cm := NullDenseMatrix(t, n, n)
-			o := call(func() error { cm.MdotM(a, bm); return nil })
-			prodScale := 1.0
-			for i := 0; i < n; i++ {
-				for j := 0; j < n; j++ {
-					prodScale = math.Max(prodScale, math.Abs(float64(c.C[i][j])))
-				}
-			}
-			if r.valuesM("MdotM", ti.name, "order2", o, cm, intM(c.C), prodScale, ti.tol, n) {
-				d := dcheck{r, "MdotM", ti.name, "order2", ti.tol}
+			o := call(func() error { binaryOp(path, cm, a, bm); return nil })
+			if r.valuesM(path, ti.name, "order2", o, cm, intM(c.C), prodScale, ti.tol, n) {
+				d := dcheck{r, path, ti.name, "order2", ti.tol}
 				d.gradM(cm, 0, int3(c.Dca), prodScale)
 				d.gradM(cm, V, int3(c.Dcb), prodScale)
 				r.nchecks++
@@ -666,7 +720,179 @@ func (r *reporter) c06DMat(c *DMatCase) {
 				}
 			}
 		}
+		// ---- the type-specialised element-wise and product methods against the generic ones:
+		// value, gradient and the full Hessian of every entry must be identical
+		for _, pair := range [][2]string{{"MdotM", "MDOTM"}, {"MaddM", "MADDM"}, {"MsubM", "MSUBM"}, {"MmulM", "MMULM"}, {"MdivM", "MDIVM"}} {
+			states := [2]string{}
+			outs := [2]outcome{}
+			for q := 0; q < 2; q++ {
+				a := mkMatrix(t, c.A)
+				bm := mkMatrix(t, c.B)
+				activate(2, []Matrix{a, bm}, c.Vars, nil)
+				cm := dirtyMatrix(t, n)
+				outs[q] = call(func() error { binaryOp(pair[q], cm, a, bm); return nil })
+				states[q] = matrixState(cm)
+			}
+			r.nchecks++
+			r.count("typed_vs_generic:" + pair[1])
+			if outs[0].loud() != outs[1].loud() || (!outs[0].loud() && states[0] != states[1]) {
+				r.mismatch(pair[1], ti.name, "order2", "fast_vs_generic", vh.M{"diff": "derivative_state"},
+					vh.M{"generic": pair[0], "typed": pair[1], "generic_outcome": outs[0].String(), "typed_outcome": outs[1].String(),
+						"generic_state": trunc(states[0], 1500), "typed_state": trunc(states[1], 1500)})
+			}
+		}
+		// ---- the second derivatives of a product entry read through the Hessian helper
+		if V > 0 {
+			k, l := int(c.Idx)%n, int(c.Idx/7)%n
+			x := NullDenseVector(t, 2*V)
+			for v, p := range c.Vars {
+				x.At(v).SetFloat64(float64(c.A[p[0]-1][p[1]-1]))
+				x.At(V + v).SetFloat64(float64(c.B[p[0]-1][p[1]-1]))
+			}
+			for _, path := range []string{"MdotM", "MDOTM"} {
+				g := func(y ConstVector) ConstScalar {
+					a := mkMatrix(t, c.A)
+					bm := mkMatrix(t, c.B)
+					for v, p := range c.Vars {
+						a.At(p[0]-1, p[1]-1).Set(y.ConstAt(v))
+						bm.At(p[0]-1, p[1]-1).Set(y.ConstAt(V + v))
+					}
+					cm := NullDenseMatrix(t, n, n)
+					binaryOp(path, cm, a, bm)
+					return cm.ConstAt(k, l)
+				}
+				want := make([][]float64, 2*V)
+				for v := range want {
+					want[v] = make([]float64, 2*V)
+					for w := range want[v] {
+						switch {
+						case v < V && w >= V:
+							want[v][w] = float64(c.D2c[v][w-V][k][l])
+						case v >= V && w < V:
+							want[v][w] = float64(c.D2c[w][v-V][k][l])
+						}
+					}
+				}
+				h := NullDenseMatrix(t, 2*V, 2*V)
+				o := call(func() error { h.Hessian(g, x.(MagicVector)); return nil })
+				r.note = vh.M{"entry": []int{k, l}}
+				r.judgeM("Hessian", ti.name, "of_"+path, nil, o, h, expectInv{want, prodScale, "none"}, ti.tol, 2*V)
+				r.note = nil
+			}
+		}
 	}
+}
+
+func hessOf(s ConstScalar, v, w int) float64 {
+	if s.GetOrder() < 2 || s.GetN() <= v || s.GetN() <= w {
+		return 0
+	}
+	return s.GetHessian(v, w)
+}
+
+func trunc(s string, n int) string {
+	if len(s) > n {
+		return s[:n] + "..."
+	}
+	return s
+}
+
+// generic (interface) and type-specialised (capital letters) binary matrix methods
+func binaryOp(name string, r, a, b Matrix) {
+	switch name {
+	case "MdotM":
+		r.MdotM(a, b)
+	case "MaddM":
+		r.MaddM(a, b)
+	case "MsubM":
+		r.MsubM(a, b)
+	case "MmulM":
+		r.MmulM(a, b)
+	case "MdivM":
+		r.MdivM(a, b)
+	default:
+		switch rr := r.(type) {
+		case *DenseReal64Matrix:
+			aa, bb := a.(*DenseReal64Matrix), b.(*DenseReal64Matrix)
+			switch name {
+			case "MDOTM":
+				rr.MDOTM(aa, bb)
+			case "MADDM":
+				rr.MADDM(aa, bb)
+			case "MSUBM":
+				rr.MSUBM(aa, bb)
+			case "MMULM":
+				rr.MMULM(aa, bb)
+			case "MDIVM":
+				rr.MDIVM(aa, bb)
+			default:
+				panic("unknown op " + name)
+			}
+		case *DenseReal32Matrix:
+			aa, bb := a.(*DenseReal32Matrix), b.(*DenseReal32Matrix)
+			switch name {
+			case "MDOTM":
+				rr.MDOTM(aa, bb)
+			case "MADDM":
+				rr.MADDM(aa, bb)
+			case "MSUBM":
+				rr.MSUBM(aa, bb)
+			case "MMULM":
+				rr.MMULM(aa, bb)
+			case "MDIVM":
+				rr.MDIVM(aa, bb)
+			default:
+				panic("unknown op " + name)
+			}
+		default:
+			panic("no typed path for this matrix type")
+		}
+	}
+}
+
+// value, gradient and full Hessian of every entry, as a comparable string;
+// entries without derivative storage are reported as zero derivatives of the
+// largest N / order met in the matrix, so that allocation details do not matter
+func matrixState(m ConstMatrix) string {
+	rows, cols := m.Dims()
+	nmax, omax := 0, 0
+	for i := 0; i < rows; i++ {
+		for j := 0; j < cols; j++ {
+			s := m.ConstAt(i, j)
+			if s.GetOrder() > omax {
+				omax = s.GetOrder()
+			}
+			if s.GetOrder() > 0 && s.GetN() > nmax {
+				nmax = s.GetN()
+			}
+		}
+	}
+	out := []interface{}{}
+	for i := 0; i < rows; i++ {
+		for j := 0; j < cols; j++ {
+			s := m.ConstAt(i, j)
+			e := []interface{}{jsonNum(s.GetFloat64())}
+			if omax >= 1 {
+				for k := 0; k < nmax; k++ {
+					if s.GetOrder() >= 1 && s.GetN() > k {
+						e = append(e, jsonNum(s.GetDerivative(k)))
+					} else {
+						e = append(e, 0.0)
+					}
+				}
+			}
+			if omax >= 2 {
+				for k := 0; k < nmax; k++ {
+					for l := 0; l < nmax; l++ {
+						e = append(e, jsonNum(hessOf(s, k, l)))
+					}
+				}
+			}
+			out = append(out, e)
+		}
+	}
+	b, _ := json.Marshal(out)
+	return string(b)
 }
 
 // symmetric matrix whose entries (p,q) and (q,p) are one variable
